@@ -70,6 +70,8 @@ SPECIES = {
     "cart": dict(sname="m", charge=0, mult=1, atoms=("O", "H", "H"), solvent=None, cart=(0,), dist=(), pcs=None),
     "dist": dict(sname="m", charge=0, mult=1, atoms=("O", "H", "H"), solvent=None, cart=(), dist=(((0, 1), 1.0),), pcs=None),
     "dist2": dict(sname="m", charge=0, mult=1, atoms=("O", "H", "H"), solvent=None, cart=(), dist=(((0, 1), 1.0004),), pcs=None),
+    "d15": dict(sname="m", charge=0, mult=1, atoms=("O", "H", "H"), solvent=None, cart=(), dist=(((0, 1), 1.5),), pcs=None),
+    "d1504": dict(sname="m", charge=0, mult=1, atoms=("O", "H", "H"), solvent=None, cart=(), dist=(((0, 1), 1.504),), pcs=None),
     "pcs": dict(sname="m", charge=0, mult=1, atoms=("O", "H", "H"), solvent=None, cart=(), dist=(), pcs=((1.0, 0.0, 0.0, 3.0),)),
     "sname": dict(sname="m2", charge=0, mult=1, atoms=("O", "H", "H"), solvent=None, cart=(), dist=(), pcs=None),
     "comp": dict(sname="m", charge=0, mult=1, atoms=("S", "H", "H"), solvent=None, cart=(), dist=(), pcs=None),
@@ -324,6 +326,16 @@ def build_detached(sp):
         shutil.rmtree(d, ignore_errors=True)
 
 
+def mutate(calc, sp):
+    """Turn an existing (already run, or copied) external Calculation into request sp by changing
+    its keywords / molecule / constraints in place, as user code does.  Name and method stay."""
+    I = impl_setup()
+    _, mol = build(dict(sp, pcs=None))
+    calc.input.keywords = I["SPK"](list(sp["kw"]))
+    calc.molecule = mol
+    return mol
+
+
 def real_id(sp, name):
     """str(executor) of the real code for request sp carrying calculation name `name`."""
     calc, _ = build_detached(sp)
@@ -382,10 +394,25 @@ def run_ops_impl(U, ops, workdir, start_fresh=True):
         os.makedirs(workdir)
     cwd = os.getcwd()
     os.chdir(workdir)
-    obs, auxs, snaps = [], [], []
+    obs, auxs, snaps, starts = [], [], [], []
+    objs = {}      # (requested name, method) -> most recent Calculation object that never had point charges
     try:
-        for j, oc, cm in ops:
-            calc, mol = build(U[j])
+        for j, oc, cmr in ops:
+            cm, _, mark = cmr.partition("@")
+            key = (U[j]["name"], U[j]["meth"])
+            plain = U[j]["pcs"] is None and U[j]["meth"] != "surf"
+            if mark == "reuse" and plain and key in objs:
+                # an existing object (a copy of it every other time) is changed into this request
+                calc = objs[key].copy() if len(obs) % 2 == 0 else objs[key]
+                starts.append(calc._executor.name)
+                mol = mutate(calc, U[j])
+            else:
+                calc, mol = build(U[j])
+                starts.append(None)
+            if plain:
+                objs[key] = calc
+            else:
+                objs.pop(key, None)
             cur.update(outcome=oc, j=j, invoked=[])
             before = set(os.listdir())
             Config.keep_input_files = cm != "CAuto"
@@ -411,7 +438,7 @@ def run_ops_impl(U, ops, workdir, start_fresh=True):
         files, outs, reg = read_dir()
     finally:
         os.chdir(cwd)
-    return dict(obs=obs, aux=auxs, files=files, outs=outs, reg=reg, snaps=snaps)
+    return dict(obs=obs, aux=auxs, files=files, outs=outs, reg=reg, snaps=snaps, starts=starts)
 
 
 # ------------------------------------------------------------------------------------------------
@@ -425,14 +452,20 @@ def oracle_sequence(U, ops, res):
     produced = {}        # output file -> (normal, j) as written by the scripted program
     creator = {}         # file name -> calculation name that (re)wrote it last
     first_name = {}      # request index -> the name it got when first issued
+    first_start = {}     # request index -> name carried by the re-used object it was first issued through (None: new object)
     ws_seen = False
     for k, ((j, oc, cm), ob, sn) in enumerate(zip(ops, res["obs"], res["snaps"])):
         name, invoked, en, raised = ob
+        cm = cm.partition("@")[0]
         sp = U[j]
         ws = any(c.isspace() for c in sp["name"])
         ws_seen = ws_seen or ws
+        st_k = res["starts"][k] if "starts" in res else None
+        first_start.setdefault(j, st_k)
         if first_name.setdefault(j, name) != name:
-            key = "same-request|different-name" + ("|whitespace-in-history" if ws_seen else "")
+            via_obj = st_k is not None or first_start[j] is not None
+            key = "same-request|different-name" + ("|whitespace-in-history" if ws_seen else
+                                                   "|through-reused-object" if via_obj else "")
             bad.append((key, f"op {k}: request {sp['tag']} was named {first_name[j]!r} before and is named {name!r} now"))
         if name in owner and owner[name] != j:
             diff = differing_fields(U[owner[name]], sp)
@@ -444,6 +477,9 @@ def oracle_sequence(U, ops, res):
         outf = sn["out"]
         if outf is None:                 # the calculation failed before any file name was fixed
             continue
+        if sp["meth"] != "surf" and outf != name + ".out":
+            bad.append(("output-file|not-named-after-the-calculation",
+                        f"op {k}: {sp['tag']} is named {name!r} but reads/writes the output file {outf!r}"))
         if not invoked and (outf not in produced or not produced[outf][0]):
             bad.append(("reuse|output-not-normal", f"op {k}: {sp['tag']} skipped the external program although {outf} "
                         + ("did not exist" if outf not in produced else "had not terminated normally")))
@@ -537,15 +573,16 @@ def cnat_opt(x):
     return "None" if x is None else f"(Some {x})"
 
 
-CORR_DEFS = ("Definition H (j : nat) (oc : outcome) (cm : cmode) (aux : list str) : hgop := HExt (j, oc, cm, aux).\n"
+CORR_DEFS = ("Definition H (j : nat) (oc : outcome) (cm : cmode) (aux : list str) (st : option str) : hgop := HExt (j, oc, cm, aux, st).\n"
              "Definition O (n : str) (i : bool) (e : option nat) (r : bool) : hobs := (n, i, e, r).\n"
              "Definition L (n : str) (c : nat) : str * nat := (n, c).\n"
              "Definition F (n : str) (b : bool) (c : nat) : str * bool * nat := (n, b, c).\n")
 
 
 def term_seq(nm, ops, res, cut=None, uname="U"):
-    hl = [nm.t("hgop", f"HOpt {j}" if oc == "OPT" else f"H {j} {oc} {cm} {coq_list([nm(a) for a in aux])}")
-          for (j, oc, cm), aux in zip(ops, res["aux"])]
+    hl = [nm.t("hgop", f"HOpt {j}" if oc == "OPT" else
+               f"H {j} {oc} {cm.partition('@')[0]} {coq_list([nm(a) for a in aux])} {'None' if st is None else '(Some ' + nm(st) + ')'}")
+          for (j, oc, cm), aux, st in zip(ops, res["aux"], res["starts"])]
     eobs = coq_list([nm.t("hobs", f"O {nm(n)} {cbool(i)} {cnat_opt(e)} {cbool(r)}") for n, i, e, r in res["obs"]])
     ereg = coq_list([nm.t("(str * nat)%type", f"L {nm(n)} {c}") for n, c in res["regc"]])
     efiles = coq_list([nm(f) for f in res["files"]])
@@ -682,8 +719,12 @@ def fixed_clusters(U):
                             o("a|orca|k1|base", "ONormal", "CAuto")]),
         ("names-prefix", [o("a|xtb|k1|base"), o("a|xtb|k2|base"), o("a_xtb|xtb|k1|base"), o("-a|xtb|k1|base"),
                           o("a|xtb|k1|base", "ONormal", "CEverything"), o("a_xtb|xtb|k1|base", "OAbnormal", "CEverything")]),
-        ("constraints", [o("a|xtb|k1|cart"), o("a|xtb|k1|dist"), o("a|xtb|k1|dist2"), o("a|xtb|k1|base"),
-                         o("a|xtb|k1|dist", "OAbnormal"), o("a|xtb|k1|comp", "ONormal", "CEverything")]),
+        ("constraints", [o("a|xtb|k1|cart"), o("a|xtb|k1|dist"), o("a|xtb|k1|dist2"), o("a|xtb|k1|d15"),
+                         o("a|xtb|k1|d1504"), o("a|xtb|k1|dist", "OAbnormal", "CEverything")]),
+        # an existing Calculation object (or a copy) is changed into another request and run again
+        ("object-reuse", [o("a|xtb|k1|base"), o("a|xtb|k2|base", "ONormal", "CNone@reuse"),
+                          o("a|xtb|k1|charge", "ONormal", "CNone@reuse"), o("a|xtb|k1|dist", "ONormal", "CForce@reuse"),
+                          o("a|xtb|k1|base", "OAbnormal", "CNone@reuse"), o("a|xtb|k2|base", "ONormal", "CEverything")]),
         ("opt-trajectory", [o("a|surf|o1|obase"), o("a|surf|o1|odist"), o("a|surf|o1|odist3"), o("a|surf|o2|odist"),
                             o("a|surf|o1|opcs"), o("a|xtb|k1|base", "ONormal", "CEverything")]),
         ("substring", [o("xa|xtb|k1|base"), o("a|xtb|k1|base"), o("a|xtb|k1|base", "ONormal", "CEverything"),
@@ -699,7 +740,8 @@ def random_cluster(ctx, U, size=6):
     ops = []
     while len(ops) < size:
         j = ctx.rng.choice(same) if ctx.rng.random() < 0.75 else ctx.rng.randrange(len(U))
-        op = mkop(U, j, ctx.rng.choices(OUTCOMES, weights=(6, 2, 1))[0], ctx.rng.choices(CMODES, weights=(5, 1, 1, 2))[0])
+        op = mkop(U, j, ctx.rng.choices(OUTCOMES, weights=(6, 2, 1))[0],
+                  ctx.rng.choices(CMODES, weights=(5, 1, 1, 2))[0] + ("@reuse" if ctx.rng.random() < 0.3 else ""))
         if op not in ops:
             ops.append(op)
     return ops
@@ -731,6 +773,7 @@ KNOWN_KEY_OF = {   # general-oracle key -> stable finding key (call site | input
     "reused-result|whitespace-in-name": "_fix_unique|registry-line-with-whitespace-name-ignored",
     "same-request|different-name|whitespace-in-history": "_fix_unique|registry-line-with-whitespace-name-ignored",
     "clean_up|foreign-file-deleted|CEverything|name-is-prefix": "clean_up|prefix-match-deletes-other-calculation",
+    "same-request|different-name|through-reused-object": "_fix_unique|reused-object-suffixes-its-current-name",
 }
 MAX_REPORTS = 10
 
@@ -763,7 +806,12 @@ def targeted_oracles(ctx, seen, only=None):
           spec("a b", "xtb", "k1", "base"), spec("a b", "xtb", "k2", "base"),        # 8 9
           spec("a", "xtb", "k2", "base"),                                            # 10
           spec("a", "surf", "o1", "odist"), spec("a", "surf", "o1", "odist3"),       # 11 12
-          spec("xa", "xtb", "k1", "base")]                                           # 13
+          spec("xa", "xtb", "k1", "base"),                                           # 13
+          spec("a", "xtb", "k1", "charge"),                                          # 14
+          spec("a", "xtb", "k1", "d15"), spec("a", "xtb", "k1", "d1504")]            # 15 16
+    for va, vb in ((2.123, 2.124), (10.21, 10.23)):                                  # 17 18, 19 20
+        for v in (va, vb):
+            TU.append(dict(spec("a", "xtb", "k1", "dist"), dist=(((0, 1), v),), tag=f"a|xtb|k1|dist={v}"))
     N = ("ONormal", "CNone")
     hist = {
         "point-charges": [(0, *N), (1, *N)], "distance-rounding": [(2, *N), (3, *N)], "atoms>100": [(4, *N), (5, *N)],
@@ -771,6 +819,12 @@ def targeted_oracles(ctx, seen, only=None):
         "prefix-cleanup": [(0, *N), (10, *N), (0, "ONormal", "CEverything")],
         # optimisations with different constraint values under one requested name, then the first again
         "opt-trajectory": [(11, "OPT", "CNone"), (12, "OPT", "CNone"), (11, "OPT", "CNone")],
+        # a run Calculation is copied / re-used, changed into a different calculation and run again
+        "object-reuse": [(0, *N), (10, "ONormal", "CNone@reuse"), (14, "ONormal", "CNone@reuse")],
+        # ... and changed BACK into the first calculation: the identical request is renamed a_xtb00
+        "reused-object-renamed": [(0, *N), (10, "ONormal", "CNone@reuse"), (0, "ONormal", "CNone@reuse")],
+        # constraints that differ by >= 0.001 A but only beyond the third significant figure
+        "distance-3-figures": [(15, *N), (16, *N), (17, *N), (18, *N), (19, *N), (20, *N)],
         # `xa_xtb.*` contains the full name `a_xtb` away from its start: cleaning `a` must keep it
         "substring-cleanup": [(13, *N), (0, *N), (0, "ONormal", "CEverything"), (13, *N)],
     }
@@ -823,8 +877,8 @@ def correspondence_sequences(ctx, U, full, seen, nm):
     for k in range(nrand):
         clusters.append((f"random{k}", random_cluster(ctx, U)))
     seqs, sinfo = [], []
-    qd = {"identity-fields": 4, "names-prefix": 4, "whitespace": 4}
-    td = {"identity-fields": 6, "names-prefix": 5, "orca-solvation": 5, "constraints": 5, "whitespace": 5}
+    qd = {"identity-fields": 4, "names-prefix": 4, "object-reuse": 4}
+    td = {"identity-fields": 6, "names-prefix": 5, "orca-solvation": 5, "constraints": 5, "whitespace": 5, "object-reuse": 5}
     for ci, (label, cl) in enumerate(clusters):
         d = td.get(label, 4) if full else qd.get(label, 3)
         if d == 6:
@@ -911,6 +965,7 @@ def restart_stream(ctx, U, full, seen, nm):
         if ref.get("hang") or ref.get("skipped"):
             continue
         merged = dict(obs=parts[0]["obs"] + parts[1]["obs"], aux=parts[0]["aux"] + parts[1]["aux"],
+                      starts=parts[0]["starts"] + parts[1]["starts"],
                       files=parts[1]["files"], outs=parts[1]["outs"], reg=parts[1]["reg"], regc=parts[1]["regc"])
         same = all(merged[x] == ref[x] for x in ("obs", "files", "outs", "regc"))
         if not same:
